@@ -90,10 +90,10 @@ func (s *State) heapArr(t types.Type, l Leaf, slice bool) (string, *Term) {
 		if slice {
 			j := Bound("j", SInt)
 			e := Select(Select(a, r), j)
-			s.PC = append(s.PC, Forall([]*Term{r, j}, And(Ge(e, Num(0)), Lt(e, base)), []*Term{e}))
+			s.PC = append(s.PC, Forall([]*Term{r, j}, Implies(Lt(r, base), And(Ge(e, Num(0)), Lt(e, base))), []*Term{e}))
 		} else {
 			e := Select(a, r)
-			s.PC = append(s.PC, Forall([]*Term{r}, And(Ge(e, Num(0)), Lt(e, base)), []*Term{e}))
+			s.PC = append(s.PC, Forall([]*Term{r}, Implies(Lt(r, base), And(Ge(e, Num(0)), Lt(e, base))), []*Term{e}))
 		}
 	}
 	return key, a
@@ -210,4 +210,26 @@ func (s *State) heapKeysSorted() []string {
 	}
 	sort.Strings(ks)
 	return ks
+}
+
+// assumeHeapWF: allocation discipline, true of every reachable Go heap: a reference stored in an
+// allocated object refers to an allocated object. Assumed after havocs (loop headers, contract calls),
+// where the concrete store history that implies it has been abstracted away.
+func (s *State) assumeHeapWF() {
+	for _, key := range s.heapKeysSorted() {
+		info, ok := s.HeapTypes[key]
+		if !ok || !info.Leaf.Ref {
+			continue
+		}
+		a := s.Heap[key]
+		r := Bound("r", SInt)
+		if info.Slice {
+			j := Bound("j", SInt)
+			e := Select(Select(a, r), j)
+			s.PC = append(s.PC, Forall([]*Term{r, j}, Implies(Lt(r, s.NextRef), And(Ge(e, Num(0)), Lt(e, s.NextRef))), []*Term{e}))
+		} else {
+			e := Select(a, r)
+			s.PC = append(s.PC, Forall([]*Term{r}, Implies(Lt(r, s.NextRef), And(Ge(e, Num(0)), Lt(e, s.NextRef))), []*Term{e}))
+		}
+	}
 }
